@@ -255,11 +255,37 @@ fn run_reads<TC: akd::configuration::Configuration>(base: &[DbRecord], batch: &B
                 }
             })));
         }
+        // with the 2 ms item lifetime: a task that lets every cached item (except the epoch record) EXPIRE at two moments the
+        // schedule chooses — the `evict` step of CacheFill.lean — e.g. between a write through the cache and the arrival of
+        // a read that was issued before it
+        let expirer = shared == Some("1ms");
+        let hx = if expirer {
+            let dbx = db.clone();
+            Some(tokio::spawn(TID.scope(reads.len() + 1, async move {
+                for _ in 0..2 {
+                    dbx.pause().await;
+                    std::thread::sleep(Duration::from_micros(2600));
+                }
+            })))
+        } else {
+            None
+        };
         let hp = Arc::new(hp);
         let hr = Arc::new(hr);
-        let (hp2, hr2) = (hp.clone(), hr.clone());
-        let n = reads.len() + 1;
-        let choices = drive(&db.ctl, n, prefs, &move |i| if i == 0 { hp2.is_finished() } else { hr2[i - 1].is_finished() }).await;
+        let hx = Arc::new(hx);
+        let (hp2, hr2, hx2) = (hp.clone(), hr.clone(), hx.clone());
+        let n = reads.len() + 1 + if expirer { 1 } else { 0 };
+        let nr = reads.len();
+        let choices = drive(&db.ctl, n, prefs, &move |i| {
+            if i == 0 {
+                hp2.is_finished()
+            } else if i <= nr {
+                hr2[i - 1].is_finished()
+            } else {
+                hx2.as_ref().as_ref().map(|h| h.is_finished()).unwrap_or(true)
+            }
+        })
+        .await;
         db.ctl.enabled.store(false, Ordering::SeqCst);
         let publish = join_or_stuck(Arc::try_unwrap(hp).ok().unwrap(), Err("STUCK: the call never returned".to_string()), |e| Err(format!("panicked: {e}"))).await;
         let mut out = vec![];
